@@ -42,3 +42,17 @@ Theorem C14_rid_path_roundtrip : forall rid prefix,
   Rid.is_valid_rid rid false = true -> path_to_rid (rid_to_path rid prefix) [] prefix = rid.
 Proof. exact rid_path_roundtrip. Qed.
 Print Assumptions C14_rid_path_roundtrip.
+
+From RG Require Import Pure.Subjects.
+
+(* The requests one client request turns into (model of the subject construction, tied to the gateway by the
+   `subjects` correspondence stage): the resource name is cut at the FIRST '?', so it never contains one ... *)
+Theorem C14_request_name_has_no_query_mark : forall l, forallb (fun c => negb (Rid.is c Rid.qm)) (Rid.name_of l) = true.
+Proof. exact name_of_no_qm. Qed.
+Print Assumptions C14_request_name_has_no_query_mark.
+
+(* ... and every request issued for one client request carries the same query in its payload. *)
+Theorem C14_requests_same_query : forall k rid cid meth s1 q1 s2 q2,
+  In (s1, q1) (requests k rid cid meth) -> In (s2, q2) (requests k rid cid meth) -> q1 = q2.
+Proof. exact requests_same_name_and_query. Qed.
+Print Assumptions C14_requests_same_query.
